@@ -664,8 +664,9 @@ Fixpoint rd_attrs (fuel : nat) (r : bytes) : option (list wattr * bytes) :=
     | None => None
     | Some (a, r1) =>
       match r1 with
-      | 1 :: r2 => Some ([a], r2)
-      | _ => match rd_attrs f r1 with Some (l, r2) => Some (a :: l, r2) | None => None end
+      | b :: r2 => if b =? 1 then Some ([a], r2)
+                   else match rd_attrs f r1 with Some (l, r3) => Some (a :: l, r3) | None => None end
+      | [] => None
       end
     end
   end.
@@ -673,7 +674,7 @@ Fixpoint rd_attrs (fuel : nat) (r : bytes) : option (list wattr * bytes) :=
 (* PI attrStart *attrValue END, after the PI token *)
 Definition rd_pi (fuel : nat) (r : bytes) : option (wattr * bytes) :=
   match rd_attr fuel r with
-  | Some (a, r1) => match r1 with 1 :: r2 => Some (a, r2) | _ => None end
+  | Some (a, r1) => match r1 with b :: r2 => if b =? 1 then Some (a, r2) else None | [] => None end
   | None => None
   end.
 
@@ -711,13 +712,15 @@ Fixpoint rd_item (fuel : nat) (r : bytes) : option (witem * bytes) :=
                            | O => None
                            | S g' =>
                              match r with
-                             | 1 :: r' => Some ([], r')
-                             | _ =>
-                               match rd_item f r with
-                               | Some (x, r') =>
-                                 match rd_items g' r' with Some (l, r'') => Some (x :: l, r'') | None => None end
-                               | None => None
-                               end
+                             | [] => None
+                             | b :: r' =>
+                               if b =? 1 then Some ([], r')
+                               else
+                                 match rd_item f r with
+                                 | Some (x, r1) =>
+                                   match rd_items g' r1 with Some (l, r'') => Some (x :: l, r'') | None => None end
+                                 | None => None
+                                 end
                              end
                            end) fuel r4 with
                   | Some (items, r5) => Some (WItemElt sw tag al true items, r5)
@@ -736,12 +739,14 @@ Fixpoint rd_pis (fuel : nat) (r : bytes) : list wattr * bytes :=
   | O => ([], r)
   | S f =>
     match r with
-    | 67 :: r0 =>
-      match rd_pi f r0 with
-      | Some (p, r1) => let '(l, r2) := rd_pis f r1 in (p :: l, r2)
-      | None => ([], r)
-      end
-    | _ => ([], r)
+    | b :: r0 =>
+      if b =? 67 then
+        match rd_pi f r0 with
+        | Some (p, r1) => let '(l, r2) := rd_pis f r1 in (p :: l, r2)
+        | None => ([], r)
+        end
+      else ([], r)
+    | [] => ([], r)
     end
   end.
 
@@ -752,8 +757,10 @@ Definition unser (bs : bytes) : option wdoc :=
   | ver :: r0 =>
     let pub :=
       match r0 with
-      | 0 :: r1 => match rd_mb r1 with Some (i, r2) => Some (PubIdx i, r2) | None => None end
-      | _ => match rd_mb r0 with Some (n, r2) => Some (PubNum n, r2) | None => None end
+      | b :: r1 =>
+        if b =? 0 then match rd_mb r1 with Some (i, r2) => Some (PubIdx i, r2) | None => None end
+        else match rd_mb r0 with Some (n, r2) => Some (PubNum n, r2) | None => None end
+      | [] => None
       end in
     match pub with
     | None => None
